@@ -316,15 +316,20 @@ def event_case(kind, values_kind, n):
             vals = I.farray("v", (n,))
         elif values_kind == "array64":
             vals = np.zeros((n,), dtype="<f8")
+        elif values_kind.startswith("array0d"):
+            # a rank-0 ndarray has an __iter__ attribute but is not iterable (iter() raises)
+            vals = np.array(2.5 if values_kind[7:] != "<i4" else 2, dtype=values_kind[7:])
+        elif values_kind == "object":
+            vals = object()
         else:
-            vals = {"int": 3, "float": 1.5, "None": None}[values_kind]
+            vals = {"int": 3, "float": 1.5, "None": None, "bool": True}[values_kind]
         try:
             e = m.Event("lab", vals, t)
             exc = None
         except Exception as ex:  # noqa: BLE001
             e, exc = None, ex
         I.observe("exc", type(exc).__name__ if exc else None)
-        if values_kind in ("int", "float", "None"):
+        if values_kind in ("int", "float", "None", "bool", "object") or values_kind.startswith("array0d"):
             I.goal("refused")
             I.prove("C19.Event.non_iterable_is_TypeError", isinstance(exc, TypeError), values_kind)
             return
@@ -391,6 +396,6 @@ def instances(tier):
         for vk in ("list", "tuple", "array", "array64"):
             for n in ((0, 1, 2, 3) if q else (0, 1, 2, 3, 4, 5, 8)):
                 out.append(Instance(f"Event.kind{kind}.{vk}.{n}", event_case(kind, vk, n)))
-        for vk in ("int", "float", "None"):
+        for vk in ("int", "float", "None", "bool", "object", "array0d<f4", "array0d<f8", "array0d<i4"):
             out.append(Instance(f"Event.kind{kind}.{vk}", event_case(kind, vk, 0), goals=["refused"]))
     return out
